@@ -205,6 +205,30 @@ def _unwrap(e: ast.AST) -> ast.AST:
     return e
 
 
+_NEGOP = {ast.Eq: ast.NotEq, ast.NotEq: ast.Eq, ast.Lt: ast.GtE, ast.GtE: ast.Lt, ast.Gt: ast.LtE, ast.LtE: ast.Gt, ast.Is: ast.IsNot, ast.IsNot: ast.Is, ast.In: ast.NotIn, ast.NotIn: ast.In}
+
+
+def _guard_text(f: Fn, t, lbl: str) -> str:
+    """Normal form of 'test t took branch lbl': locals expanded to what they stand for, negation pushed into the comparison,
+    operands of == / != in a fixed order - so that two spellings of one condition read the same."""
+    import copy
+
+    e = f.expand(t.ast, t)
+    neg = lbl == "false"
+    while isinstance(e, ast.UnaryOp) and isinstance(e.op, ast.Not):
+        e, neg = e.operand, not neg
+    if isinstance(e, ast.Compare) and len(e.ops) == 1:
+        op = type(e.ops[0])
+        if neg and op in _NEGOP:
+            op, neg = _NEGOP[op], False
+        l, r = _norm(norm_text(e.left)), _norm(norm_text(e.comparators[0]))
+        if op in (ast.Eq, ast.NotEq) and r < l:
+            l, r = r, l
+        sym = {ast.Eq: "==", ast.NotEq: "!=", ast.Lt: "<", ast.GtE: ">=", ast.Gt: ">", ast.LtE: "<=", ast.Is: "is", ast.IsNot: "is not", ast.In: "in", ast.NotIn: "not in"}.get(op, "?")
+        return ("not " if neg else "") + f"{l} {sym} {r}"
+    return ("not " if neg else "") + norm_text(e)
+
+
 def skeleton(ctx, f: Fn):
     """effect kind -> sorted list of (detail, frozenset of guards)"""
     g = f.cfg
@@ -238,7 +262,7 @@ def skeleton(ctx, f: Fn):
             for lbl in ("true", "false"):
                 b = f.branch(t, lbl)
                 if g.dominates(b.id, n.id):
-                    guards.add(("" if lbl == "true" else "not ") + _norm(norm_text(t.ast)))
+                    guards.add(_norm(_guard_text(f, t, lbl)))
         for c in g.nodes:
             if c.kind == "case" and any(lbl == "match" and g.dominates(s, n.id) for lbl, s in c.succ):
                 guards.add("case " + _norm(norm_text(c.ast.pattern)) + (" if " + _norm(norm_text(c.ast.guard)) if c.ast.guard is not None else ""))
